@@ -17,7 +17,22 @@ FN = {
     "bizda": (dur.add_months_bizda, lambda o, n: dur.add_months_bizda(o, 12 * n)),
     "ywd": (None, dur.add_years_ywd),
     "yd": (None, dur.add_years_yd),
+    # seconds since 1970 have no months: the addition has to go through the civil date
+    "epoch": (dur.add_months_ymd, lambda o, n: dur.add_months_ymd(o, 12 * n)),
 }
+
+
+def mid_ok(K, mid):
+    """the intermediate result of a two-step addition is representable (epoch values: not in the last 606 days, F1)"""
+    return mid is not None and dur.in_range(mid) and (K != "epoch" or mid <= cal.ORD_MAX - 606)
+
+
+def eager(f1, a, f2, b):
+    """two steps, the first result clamped before the second is taken (a count of seconds has no lazy day 31)"""
+    def f(o, _n):
+        m = f1(o, a)
+        return None if m is None or not dur.in_range(m) else f2(m, b)
+    return f
 
 
 def pairs(K, ords, fn, n, ctx):
@@ -26,6 +41,9 @@ def pairs(K, ords, fn, n, ctx):
         if K == "bizda" and not dur.is_bday(o):
             continue
         t = fn(o, n)
+        if K == "epoch" and (o == cal.ORD_UNIX or (t is not None and max(o, t) > cal.ORD_MAX - 606)):
+            ctx.skip("epoch-last606")
+            continue
         if t is None or not dur.in_range(t):
             ctx.skip("result-out-of-range")
             continue
@@ -95,6 +113,7 @@ def main(tier, seed):
                         + rnd[:4000])
     sets["bizda"] = sorted([o for o in cand if dur.is_bday(o) and dur.bday_index(o) >= 19][:8000 if quick else 25000]
                            + [o for o in rnd[:6000] if dur.is_bday(o)])
+    sets["epoch"] = sorted(rng.sample(sets["ymd"], 4000 if quick else 12000))
     tasks = []
     for K, (fm, fy) in FN.items():
         S = sets[K]
@@ -111,7 +130,7 @@ def main(tier, seed):
             for _ in range(30 if quick else 300):
                 a = rng.choice([1, -1]) * rng.randrange(1, 3000)
                 b = rng.choice([1, -1]) * rng.randrange(1, 3000)
-                pr = [(o, t) for o, t in pairs(K, small, fm, a + b, ctx) if fm(o, a) is not None]
+                pr = [(o, t) for o, t in pairs(K, small, fm if K != "epoch" else eager(fm, a, fm, b), a + b, ctx) if mid_ok(K, fm(o, a))]
                 tasks.append(("add", (bindir, "C04", K, ["%+dmo" % a, "%+dmo" % b], pr, "compose-mo")))
                 n = rng.choice([1, -1]) * rng.randrange(1, 20000)
                 tasks.append(("add", (bindir, "C04", K, ["%+dmo" % n], pairs(K, small, fm, n, ctx), "mo-rand")))
@@ -121,10 +140,10 @@ def main(tier, seed):
         for _ in range(15 if quick else 150):
             a = rng.choice([1, -1]) * rng.randrange(1, 300)
             b = rng.choice([1, -1]) * rng.randrange(1, 300)
-            pr = [(o, t) for o, t in pairs(K, small, fy, a + b, ctx) if fy(o, a) is not None]
+            pr = [(o, t) for o, t in pairs(K, small, fy if K != "epoch" else eager(fy, a, fy, b), a + b, ctx) if mid_ok(K, fy(o, a))]
             tasks.append(("add", (bindir, "C04", K, ["%+dy" % a, "%+dy" % b], pr, "compose-y")))
             if fm:
-                pr = [(o, t) for o, t in pairs(K, small, fm, 12 * a + b, ctx) if fm(o, 12 * a) is not None]
+                pr = [(o, t) for o, t in pairs(K, small, fm if K != "epoch" else eager(fy, a, fm, b), 12 * a + b, ctx) if mid_ok(K, fm(o, 12 * a))]
                 tasks.append(("add", (bindir, "C04", K, ["%+dy" % a, "%+dmo" % b], pr, "compose-y-mo")))
     for _ in range(300 if quick else 5000):
         o = rng.choice(ymd_days if rng.random() < .8 else rnd)
@@ -132,12 +151,13 @@ def main(tier, seed):
     # the same steps with the result printed in ANOTHER calendar: the lazy
     # clamp must have happened before any conversion
     XO = {"ymd": ["ywd", "yd", "ymcw", "ldn"], "ymcw": ["ymd", "ywd"], "bizda": ["ymd"], "ywd": ["ymd", "yd"],
-          "yd": ["ymd", "ywd"]}
+          "yd": ["ymd", "ywd"], "epoch": [None]}
     cross = []
     for i, t in enumerate(tasks):
         if t[0] == "add":
             outs = XO[t[1][2]]
-            cross.append(("add", t[1] + (outs[i % len(outs)],)))
+            if outs[i % len(outs)] is not None:
+                cross.append(("add", t[1] + (outs[i % len(outs)],)))
     tasks += cross
     tasks = [t for t in tasks if t[0] == "dseq" or t[1][4]]
     tasks.sort(key=lambda t: -(len(t[1][4]) if t[0] == "add" else 50))
